@@ -174,8 +174,12 @@ DecAck(b) ==
 
 \* RFC 9853: return_routability_check = msg_type (path_challenge 0, path_response 1,
 \* path_drop 2) followed by an 8-byte cookie
+\* RFC 9853 4.2: a message with an unknown msg_type is parsed and ignored
+\* (whatever follows the type belongs to it; its cookie is not interpreted)
 EncRrc(r) == << r.type >> \o r.cookie
-DecRrc(b) == IF Len(b) < 9 THEN Reject
+DecRrc(b) == IF Len(b) < 1 THEN Reject
+             ELSE IF b[1] > 2 THEN [ok |-> TRUE, used |-> Len(b), h |-> [type |-> b[1], cookie |-> Rep(0, 8)]]
+             ELSE IF Len(b) < 9 THEN Reject
              ELSE [ok |-> TRUE, used |-> 9, h |-> [type |-> b[1], cookie |-> SubSeq(b, 2, 9)]]
 
 \* RFC 9146 4 / RFC 8446 5.2 / RFC 9147 4: content || real type || zero padding.
